@@ -23,7 +23,7 @@ Lemma tstep_lock_event t th s f b th' s' e :
   | _, _ => lks s' = lks s
   end.
 Proof.
-  intros H. destruct th as [c p ? ? ? ? ? ? ? ? ?]. destruct p.
+  intros H. tstep_start H th.
   all: tstep_full H. all: inv_some H. all: cbn [e_tid e_op e_out]; split; [reflexivity|].
   all: cbn [cfg tpc lks with_lks sh]; auto.
   all: try (match goal with E : Nat.eqb _ _ = true |- _ => apply Nat.eqb_eq in E; subst end); auto.
@@ -68,7 +68,7 @@ Lemma tstep_prelock t th s f b th' s' e :
   | _, _ => True
   end.
 Proof.
-  intros H. destruct th as [c p ? ? ? ? ? ? ? ? ?]. destruct p.
+  intros H. tstep_start H th.
   all: tstep_full H. all: inv_some H. all: cbn [e_op e_out tpc prelock]; split; auto; try discriminate; eauto.
 Qed.
 
